@@ -30,6 +30,21 @@ def f12_case(name):
     return c
 
 
+MECH_BREF = "nested-boundary-unset-reference-reads-valid-empty"
+
+
+def f22_case(name):
+    """r0 is an unset reference (its selector never ticks). G(c, r) = pass(if_then_else(c, r, c)) called NESTED with (t, r0):
+    at t=17 the condition turns true and selects the unset reference."""
+    c = Case(name, 10, 30)
+    c.scripts[50] = []
+    c.graphs["sub6"] = [S("s", "ite", "p0", "p1", "p0", uid=38), S("r", "pass", "s", uid=39), S("", "RET", "r")]
+    c.graphs["main"] = [S("t", "ticker", uid=2, period=7, count=4), S("u", "src", uid=50, mode=0), S("w", "ticker", uid=3, period=3, count=9),
+                        S("r0", "ite", "u", "w", "w", uid=37), S("n", "nested", "t", "r0", sid=6), S("", "rec", "n", uid=41)]
+    c.meta["witness"] = "F22"
+    return c
+
+
 def check_witness(case, tr):
     res = Result(signature=case.text().split("\n", 1)[1])
     if tr.build_error or not tr.runs or tr.runs[0].error:
@@ -43,6 +58,15 @@ def check_witness(case, tr):
                 f"consumer of a nested graph whose output is an inner nested call's port ran at t=0 reading {hit[0].ins} (modified without a "
                 f"write, no value): the outer forwarding output is marked modified when it is bound on the first evaluation; inlined, the "
                 f"consumer first runs at t=5", MECH_FWD))
+    elif case.meta["witness"] == "F22":
+        ran = sorted(u.t for u in ue if u.uid == 39)
+        if ran == [10]:
+            res.violations.append(Violation(
+                f"reader of a reference selection inside a nested graph ran at {ran} only: when the selection switched (t=17) to an "
+                f"argument that is an unset reference produced outside the graph, the reader lost its target for good (inlined it keeps "
+                f"following the previous target and runs at 10, 17, 24)", MECH_BREF))
+        elif ran != [10, 17, 24]:
+            res.violations.append(Violation(f"witness F22: reader ran at {ran}, expected [10, 17, 24] (or [10] with the known finding)"))
     else:
         hit = [u for u in ue if u.uid == 46 and u.t == 45]
         if hit:
